@@ -199,8 +199,11 @@ Definition bundle_pkgs (bd : bundle) : list str := map bfile_pkg bd.
 Definition symbols_ok (bd : bundle) (pkg : str) : bool :=
   nodup_str (decl_package_symbols snake camel screaming bd pkg).
 
-(* the sub-package names are reserved *)
+(* package names: not empty (a file outside every package directory belongs to the package ""
+   which the compiler cannot load: "no files for package at"), and the sub-package names are
+   reserved *)
 Definition subpackages_free (bd : bundle) (pkg : str) : bool :=
+  match pkg with [] => false | _ => true end &&
   negb (existsb (str_eqb (pkg ++ b ".service")) (bundle_pkgs bd)) &&
   negb (existsb (str_eqb (pkg ++ b ".topic")) (bundle_pkgs bd)).
 
